@@ -20,11 +20,11 @@ enum en { E0, E1 = 3, E2 };
 typedef int (*fn)(int, int);
 static int tbl[] = { 1, 2, 3, };
 static const char *msg = "a  b\\tc" "d";
-static const char *tabs = /* sep */ "name\tvalue";
-static const char *tab2 =
+const char *tabs = /* sep */ "name\tvalue";
+const char *tab2 =
     // a literal with a raw tab is the first thing behind this comment
     "\t";
-static const char tab3 = /* c */ '\t';
+const char tab3 = /* c */ '\t';
 unsigned int u1; unsigned u2; long int l1; short int s1; signed int g1;
 #define SQ(x) ((x) * (x))
 #define MAX(x, y) ((x) > (y) ? (x) : (y))
